@@ -62,7 +62,7 @@ def main():
                 "(edit-knob sequence, mode, jobs) shapes; evaluations = real bob invocations incl. oracle clean builds")
     rep.assumptions = ["step scripts are deterministic functions of their declared inputs (generated that way)",
                        "import SCM sources (with prune), two packages; classes/tools are not in the model yet"]
-    num = 120 if quick else 1200
+    num = 100 if quick else 1200
     jobs = [("main", "BobBuild", "BobBuild_c01.cfg" if quick else "BobBuild_c01_thorough.cfg", dict(coverage=True, timeout=3000))]
     jobs += [("weak:" + w, "BobBuild", "BobBuild_c01_weak_%s.cfg" % w, dict(timeout=1800)) for w in WEAK]
     jobs += [("gen", "BobBuild", "BobBuild_c01_gen.cfg", dict(workers=1, simulate="num=%d" % num, depth=260, seed=a.seed + 1, timeout=900))]
@@ -84,11 +84,11 @@ def main():
             only_src = [h for h in r.printed if all(x["a"] != "Edit" or (x["knob"] == "src" and x["p"] == "lib") for x in h)]
             sel = select(only_src, 14 if quick else 40, rng)
         else:
-            sel = select(r.printed, 8 if quick else 50, rng)
+            sel = select(r.printed, 6 if quick else 50, rng)
         rep.extra.setdefault("weakened_model_counterexamples", {})[w] = {"found": len(r.printed), "replayed": len(sel)}
         behaviours += [(h, "cex:" + w) for h in sel]
     g = out["gen"]
-    sel = select(g.printed, 50 if quick else 500, rng, need=lambda h: sum(1 for x in h if x["a"] == "End") >= 2)
+    sel = select(g.printed, 36 if quick else 500, rng, need=lambda h: sum(1 for x in h if x["a"] == "End") >= 2)
     behaviours += [(h, "simulate") for h in sel]
     rep.extra["simulated"] = {"generated": len(g.printed), "replayed": len(sel)}
     cache = common.scratch("vf-c01-oracle-")
@@ -130,12 +130,12 @@ def main():
             only_src = [h for h in r.printed if all(x["a"] != "Edit" or (x["knob"] == "src" and x["p"] == "lib") for x in h)]
             sel = select(only_src, 14 if quick else 40, rng)
         else:
-            sel = select(r.printed, 8 if quick else 50, rng)
+            sel = select(r.printed, 6 if quick else 50, rng)
         rep.extra.setdefault("weakened_model_counterexamples", {})[w] = {"found": len(r.printed), "replayed": len(sel)}
         behaviours += [(h, "cex:" + w) for h in sel]
-    num = 120 if quick else 1200
+    num = 100 if quick else 1200
     g = tlc.run("BobBuild", "BobBuild_c01_gen.cfg", workers=1, simulate="num=%d" % num, depth=260, seed=a.seed + 1, timeout=900)
-    sel = select(g.printed, 50 if quick else 500, rng, need=lambda h: sum(1 for x in h if x["a"] == "End") >= 2)
+    sel = select(g.printed, 36 if quick else 500, rng, need=lambda h: sum(1 for x in h if x["a"] == "End") >= 2)
     behaviours += [(h, "simulate") for h in sel]
     rep.extra["simulated"] = {"generated": len(g.printed), "replayed": len(sel)}
     cache = common.scratch("vf-c01-oracle-")
@@ -147,7 +147,7 @@ def main():
         # import SCM without prune: only where no source file is ever deleted (documented caveat otherwise)
         prune = not (bc.lib_never_deletes(h) and (rng.random() < 0.5 or origin == "cex:ImportKeepsOld"))
         tasks.append((i, h, origin, release, jobs, cache, define, prune))
-    with mp.get_context("fork").Pool(common.workers()) as pool:
+    with mp.get_context("fork").Pool(min(8, common.workers())) as pool:
         for r in pool.imap_unordered(replay_task, tasks):
             rep.traces += 1
             rep.evaluations += r["invocations"] + r["oracle_builds"]
